@@ -1,7 +1,1591 @@
-//! C05 — FRI opening proofs (see DESIGN.md §C05).
+//! C05 — FRI opening proofs attest only true evaluations of low-degree polynomials
+//! (fault enumeration at the FRI API level, see DESIGN.md §C05).
+//!
+//! The harness plays both roles of the interactive protocol made non-interactive: it commits the
+//! oracles, replays the transcript on a fresh `Challenger` for the verifier, and computes the
+//! *claimed* openings itself by Horner's rule over the u128 reference field (`oracle::poly_ref`),
+//! never through the library's `eval`. Deviating provers are built from the public pieces
+//! (`fri_proof`, literal `PolynomialBatch` values, the `pow_witness` knob); every verdict that is
+//! asserted is either deterministic or predicted exactly from the challenges by the harness.
 
-use crate::engine::Ctx;
+use std::collections::BTreeSet;
+
+use plonky2::batch_fri::oracle::BatchFriOracle;
+use plonky2::batch_fri::verifier::verify_batch_fri_proof;
+use plonky2::field::extension::quadratic::QuadraticExtension;
+use plonky2::field::polynomial::{PolynomialCoeffs, PolynomialValues};
+use plonky2::field::types::{Field, PrimeField64};
+use plonky2::fri::oracle::PolynomialBatch;
+use plonky2::fri::proof::{FriChallenges, FriProof};
+use plonky2::fri::prover::fri_proof;
+use plonky2::fri::reduction_strategies::FriReductionStrategy;
+use plonky2::fri::structure::{
+    FriBatchInfo, FriInstanceInfo, FriOpeningBatch, FriOpenings, FriOracleInfo, FriPolynomialInfo,
+};
+use plonky2::fri::verifier::verify_fri_proof;
+use plonky2::fri::{FriConfig, FriParams};
+use plonky2::hash::merkle_tree::{MerkleCap, MerkleTree};
+use plonky2::iop::challenger::Challenger;
+use plonky2::plonk::config::GenericConfig;
+use plonky2::util::reducing::ReducingFactor;
+use plonky2::util::timing::TimingTree;
+use plonky2::util::{reverse_index_bits_in_place, transpose};
+use plonky2::verif_hooks::{reset_knobs, set_knobs, Knobs};
+use proptest::prelude::*;
+use serde::{Deserialize, Serialize};
+use serde_json::json;
+
+use crate::engine::{bx, catch, frac, hash_of, Ctx, Stats, Tier};
+use crate::gen::dsl::{D, F};
+use crate::gen::field::{canonical, P};
+use crate::gen::mutate::*;
+use crate::oracle::poly_ref::{bitrev, horner, pow as ref_pow, root_g, Fe, G, G2, MULT_GEN};
+use crate::props::common::{frac32, raw_edit, RawEdit};
+use crate::with_config;
+
+type FE = QuadraticExtension<F>;
+type Hs<C> = <C as GenericConfig<D>>::Hasher;
+type Proof<C> = FriProof<F, Hs<C>, D>;
+type Cap<C> = MerkleCap<F, Hs<C>>;
+type Chal<C> = Challenger<F, Hs<C>>;
+/// claimed / true openings: instance -> opening batch -> value (canonical residues)
+type Openings = Vec<Vec<Vec<[u64; 2]>>>;
+
+// ------------------------------------------------------------------------------------------
+// Small conversions and the reference side
+// ------------------------------------------------------------------------------------------
+
+fn fb(x: u64) -> F {
+    F::from_canonical_u64(x % P)
+}
+
+fn fe(x: [u64; 2]) -> FE {
+    QuadraticExtension([fb(x[0]), fb(x[1])])
+}
+
+fn raw(x: FE) -> [u64; 2] {
+    [x.0[0].to_canonical_u64(), x.0[1].to_canonical_u64()]
+}
+
+fn g2(x: FE) -> G2 {
+    G2::new(raw(x))
+}
+
+/// Reference opening: Horner's rule in GF(p^2) over u128 arithmetic.
+fn ref_open(coeffs: &[u64], z: [u64; 2]) -> [u64; 2] {
+    let c: Vec<G2> = coeffs.iter().map(|&c| G2::new([c, 0])).collect();
+    horner(&c, G2::new(z)).raw()
+}
+
+fn sq_n<E: Fe>(mut x: E, n: usize) -> E {
+    for _ in 0..n {
+        x = x.mul(x);
+    }
+    x
+}
+
+/// An opening point is unusable iff it lies in the two-adic subgroup of order 2^lde_bits (which
+/// contains the trace subgroup) or in the LDE coset g*H (the verifier divides by `x - point`).
+fn point_bad(p: [u64; 2], lde_bits: usize) -> bool {
+    let t = sq_n(G2::new(p), lde_bits);
+    let gg = sq_n(G(MULT_GEN), lde_bits);
+    t == G2::one() || t == G2([gg, G(0)])
+}
+
+fn repair_point(mut p: [u64; 2], lde_bits: usize) -> ([u64; 2], bool) {
+    let mut repaired = false;
+    while point_bad(p, lde_bits) {
+        p[0] = (p[0] + 1) % P;
+        repaired = true;
+    }
+    (p, repaired)
+}
+
+fn mk_openings(o: &Openings) -> Vec<FriOpenings<F, D>> {
+    o.iter()
+        .map(|inst| FriOpenings {
+            batches: inst.iter().map(|b| FriOpeningBatch { values: b.iter().map(|&v| fe(v)).collect() }).collect(),
+        })
+        .collect()
+}
+
+fn clone_challenges(c: &FriChallenges<F, D>) -> FriChallenges<F, D> {
+    FriChallenges {
+        fri_alpha: c.fri_alpha,
+        fri_betas: c.fri_betas.clone(),
+        fri_pow_response: c.fri_pow_response,
+        fri_query_indices: c.fri_query_indices.clone(),
+    }
+}
+
+/// The proof-of-work rule, re-derived: the response, as a canonical integer below the 64-bit
+/// prime p, must have at least `pow_bits` leading zero bits in its 64-bit binary form
+/// (the field order has exactly 64 bits, so no extra bits are owed).
+fn pow_sufficient(response_canonical: u64, pow_bits: u32) -> bool {
+    pow_bits == 0 || (pow_bits < 64 && response_canonical < (1u64 << (64 - pow_bits))) || (pow_bits >= 64 && response_canonical == 0)
+}
+
+#[derive(Debug)]
+enum Verdict {
+    Accepted,
+    Rejected(String),
+    Panicked(String),
+}
+
+impl Verdict {
+    fn accepted(&self) -> bool {
+        matches!(self, Verdict::Accepted)
+    }
+    fn short(&self) -> &'static str {
+        match self {
+            Verdict::Accepted => "accepted",
+            Verdict::Rejected(_) => "rejected",
+            Verdict::Panicked(_) => "rejected_by_panic",
+        }
+    }
+    fn text(&self) -> String {
+        match self {
+            Verdict::Accepted => "accepted".into(),
+            Verdict::Rejected(e) => format!("rejected: {}", e),
+            Verdict::Panicked(e) => format!("panicked: {}", e),
+        }
+    }
+}
+
+struct KnobGuard;
+impl Drop for KnobGuard {
+    fn drop(&mut self) {
+        reset_knobs();
+    }
+}
+
+// ------------------------------------------------------------------------------------------
+// Raw (generated) data
+// ------------------------------------------------------------------------------------------
+
+#[derive(Clone, Debug, Serialize, Deserialize, PartialEq, Eq, Hash)]
+pub struct RawFri {
+    pub rate_bits: usize,
+    pub cap_height: usize,
+    /// 0 = Fixed(list), 1 = ConstantArityBits(arity, final_bits), 2 = MinSize(opt)
+    pub strat_kind: u8,
+    pub fixed: Vec<u8>,
+    pub arity: u8,
+    pub final_bits: u8,
+    /// 0 = None, k = Some(k)
+    pub min_opt: u8,
+    pub pow_bits: u32,
+    pub queries: usize,
+    pub hiding: bool,
+    /// transcript padding used by recursion (`final_poly_coeff_len`, `max_num_query_steps`):
+    /// 0..=3 none, 4 = final length padded, 5 = both padded
+    pub pad: u8,
+}
+
+fn raw_fri() -> BoxedStrategy<RawFri> {
+    bx((
+        (1usize..=3, 0usize..=3, 0u8..3, prop::collection::vec(1u8..=4, 0..=5), 1u8..=4, 0u8..=7),
+        (0u8..=4, 0u32..=8, 1usize..=12, prop::bool::weighted(0.3), 0u8..=5),
+    )
+        .prop_map(|((rate_bits, cap_height, strat_kind, fixed, arity, final_bits), (min_opt, pow_bits, queries, hiding, pad))| RawFri {
+            rate_bits,
+            cap_height,
+            strat_kind,
+            fixed,
+            arity,
+            final_bits,
+            min_opt,
+            pow_bits,
+            queries,
+            hiding,
+            pad,
+        }))
+}
+
+/// Repairing elaboration of the FRI configuration for polynomials of `d` degree bits. The repairs
+/// keep every Merkle tree at least as high as its cap and the final polynomial non-empty, which
+/// is what `CircuitBuilder::build` guarantees for its own configurations.
+fn elab_fri(r: &RawFri, d: usize) -> FriParams {
+    let rate = r.rate_bits;
+    let (cap, strat) = match r.strat_kind {
+        0 => {
+            let cap = r.cap_height.min(d + rate);
+            let budget = d.min(d + rate - cap);
+            let mut list = vec![];
+            let mut sum = 0;
+            for &a in &r.fixed {
+                let a = (a as usize).min(budget - sum);
+                if a == 0 {
+                    break;
+                }
+                list.push(a);
+                sum += a;
+            }
+            (cap, FriReductionStrategy::Fixed(list))
+        }
+        1 => {
+            let a = (r.arity as usize).clamp(1, 4);
+            let f = (r.final_bits as usize).max(a - 1);
+            (r.cap_height.min(d + rate), FriReductionStrategy::ConstantArityBits(a, f))
+        }
+        _ => {
+            let opt = if r.min_opt == 0 { None } else { Some(r.min_opt as usize) };
+            (r.cap_height.min(rate), FriReductionStrategy::MinSize(opt))
+        }
+    };
+    FriConfig {
+        rate_bits: rate,
+        cap_height: cap,
+        proof_of_work_bits: r.pow_bits,
+        reduction_strategy: strat,
+        num_query_rounds: r.queries,
+    }
+    .fri_params(d, r.hiding)
+}
+
+/// The preconditions the harness promises for every parameter set it feeds to the library.
+fn check_params(p: &FriParams) -> Result<(), String> {
+    let total: usize = p.reduction_arity_bits.iter().sum();
+    let lde = p.degree_bits + p.config.rate_bits;
+    if total > p.degree_bits || p.config.cap_height > lde || (total > 0 && total + p.config.cap_height > lde) {
+        return Err(format!("harness: parameter repair failed: {:?}", p));
+    }
+    Ok(())
+}
+
+fn strat_label(p: &FriParams) -> &'static str {
+    match p.config.reduction_strategy {
+        FriReductionStrategy::Fixed(_) => "strategy:fixed",
+        FriReductionStrategy::ConstantArityBits(..) => "strategy:constant_arity",
+        FriReductionStrategy::MinSize(_) => "strategy:min_size",
+    }
+}
+
+fn pad_of(r: &RawFri, p: &FriParams) -> (Option<usize>, Option<usize>) {
+    match r.pad {
+        4 => (Some(p.final_poly_len() + 1 + (r.arity as usize % 3)), None),
+        5 => (Some(p.final_poly_len() + (r.arity as usize % 2)), Some(p.reduction_arity_bits.len() + (r.final_bits as usize % 3))),
+        _ => (None, None),
+    }
+}
+
+#[derive(Clone, Debug, Serialize, Deserialize, PartialEq, Eq, Hash)]
+pub struct RawOracle {
+    pub polys: Vec<Vec<u64>>,
+    pub blinding: bool,
+}
+
+#[derive(Clone, Debug, Serialize, Deserialize, PartialEq, Eq, Hash)]
+pub struct RawBatch {
+    pub point: [u64; 2],
+    /// 0 generated extension point, 1 drawn from the transcript, 2 base-field point,
+    /// 3 point of the subgroup / LDE coset (then repaired)
+    pub mode: u8,
+    pub mask: u32,
+    pub rev: bool,
+}
+
+fn raw_batch() -> BoxedStrategy<RawBatch> {
+    bx((
+        [canonical(), canonical()],
+        prop_oneof![5 => Just(0u8), 3 => Just(1u8), 1 => Just(2u8), 1 => Just(3u8)],
+        any::<u32>(),
+        prop::bool::weighted(0.2),
+    )
+        .prop_map(|(point, mode, mask, rev)| RawBatch { point, mode, mask, rev }))
+}
+
+fn poly_strat(n: usize) -> BoxedStrategy<Vec<u64>> {
+    bx(prop_oneof![
+        6 => prop::collection::vec(canonical(), n..=n),
+        1 => (prop::collection::vec(canonical(), n..=n), any::<u16>()).prop_map(move |(mut v, k)| {
+            let keep = frac(k, n);
+            for x in v.iter_mut().skip(keep) {
+                *x = 0;
+            }
+            v
+        }),
+        1 => (canonical(), any::<u16>()).prop_map(move |(c, k)| {
+            let mut v = vec![0u64; n];
+            v[frac(k, n)] = c;
+            v
+        }),
+    ])
+}
+
+/// Raw material for the deviations (selectors and canonical values).
+#[derive(Clone, Debug, Serialize, Deserialize, PartialEq, Eq, Hash)]
+pub struct RawDev {
+    pub sel: Vec<u16>,
+    pub vals: Vec<u64>,
+}
+
+fn raw_dev() -> BoxedStrategy<RawDev> {
+    bx((prop::collection::vec(any::<u16>(), 12..=12), prop::collection::vec(canonical(), 12..=12)).prop_map(|(sel, vals)| RawDev { sel, vals }))
+}
+
+fn nonzero(v: u64) -> u64 {
+    if v % P == 0 {
+        1
+    } else {
+        v % P
+    }
+}
+
+// ------------------------------------------------------------------------------------------
+// The flow shared by the single-degree and the batched variant
+// ------------------------------------------------------------------------------------------
+
+struct Flow<'a, C: GenericConfig<D, F = F>> {
+    single: bool,
+    degree_bits: Vec<usize>,
+    instances: Vec<FriInstanceInfo<F, D>>,
+    params: FriParams,
+    caps: Vec<Cap<C>>,
+    pad: (Option<usize>, Option<usize>),
+    /// A fresh challenger that replays everything that precedes the openings.
+    replay: Box<dyn Fn() -> Chal<C> + 'a>,
+    /// The honest prover, given the challenger that has observed the openings.
+    prove: Box<dyn Fn(&mut Chal<C>) -> Proof<C> + 'a>,
+    keccak: bool,
+    shape_hash: u64,
+}
+
+impl<'a, C: GenericConfig<D, F = F>> Flow<'a, C> {
+    fn reductions(&self) -> usize {
+        self.params.reduction_arity_bits.len()
+    }
+
+    fn after_openings(&self, op: &[FriOpenings<F, D>]) -> Chal<C> {
+        let mut ch = (self.replay)();
+        for o in op {
+            ch.observe_openings(o);
+        }
+        ch
+    }
+
+    fn prove_with(&self, op: &[FriOpenings<F, D>]) -> Proof<C> {
+        let mut ch = self.after_openings(op);
+        (self.prove)(&mut ch)
+    }
+
+    fn challenges(&self, op: &[FriOpenings<F, D>], proof: &Proof<C>) -> FriChallenges<F, D> {
+        let mut ch = self.after_openings(op);
+        ch.fri_challenges::<C, D>(
+            &proof.commit_phase_merkle_caps,
+            &proof.final_poly,
+            proof.pow_witness,
+            self.degree_bits[0],
+            &self.params.config,
+            self.pad.0,
+            self.pad.1,
+        )
+    }
+
+    fn verify(&self, op: &[FriOpenings<F, D>], ch: &FriChallenges<F, D>, caps: &[Cap<C>], proof: &Proof<C>) -> Verdict {
+        let r = if self.single {
+            catch(|| verify_fri_proof::<F, C, D>(&self.instances[0], &op[0], ch, caps, proof, &self.params))
+        } else {
+            catch(|| verify_batch_fri_proof::<F, C, D>(&self.degree_bits, &self.instances, op, ch, caps, proof, &self.params))
+        };
+        match r {
+            Ok(Ok(())) => Verdict::Accepted,
+            Ok(Err(e)) => Verdict::Rejected(format!("{:#}", e)),
+            Err(p) => Verdict::Panicked(p),
+        }
+    }
+
+    fn describe(&self) -> String {
+        format!(
+            "degree_bits={:?} rate={} cap={} arities={:?} pow={} queries={} hiding={} oracles={:?} batches={:?} pad={:?} keccak={}",
+            self.degree_bits,
+            self.params.config.rate_bits,
+            self.params.config.cap_height,
+            self.params.reduction_arity_bits,
+            self.params.config.proof_of_work_bits,
+            self.params.config.num_query_rounds,
+            self.params.hiding,
+            self.instances.iter().map(|i| i.oracles.iter().map(|o| (o.num_polys, o.blinding)).collect::<Vec<_>>()).collect::<Vec<_>>(),
+            self.instances.iter().map(|i| i.batches.iter().map(|b| b.polynomials.len()).collect::<Vec<_>>()).collect::<Vec<_>>(),
+            self.pad,
+            self.keccak
+        )
+    }
+}
+
+/// Cap entries read by some query, computed from the challenge indices alone: an index `x` of a
+/// tree with `2^h` leaves and cap height `c` ends in cap entry `x >> (h - c)`.
+struct Selected {
+    initial: BTreeSet<usize>,
+    commit: Vec<BTreeSet<usize>>,
+}
+
+fn selected(params: &FriParams, indices: &[usize]) -> Selected {
+    let lde = params.lde_bits();
+    let cap = params.config.cap_height;
+    let mut s = Selected { initial: BTreeSet::new(), commit: vec![BTreeSet::new(); params.reduction_arity_bits.len()] };
+    for &x in indices {
+        s.initial.insert(x >> (lde - cap));
+        let mut acc = 0;
+        for (i, &a) in params.reduction_arity_bits.iter().enumerate() {
+            acc += a;
+            let coset = x >> acc;
+            let height = lde - acc;
+            s.commit[i].insert(coset >> (height - cap));
+        }
+    }
+    s
+}
+
+enum Where {
+    Pow,
+    CommitCap(usize, usize),
+    Other,
+}
+
+fn locate(path: &Path) -> Where {
+    match path.first() {
+        Some(Seg::Key(k)) if k == "pow_witness" => Where::Pow,
+        Some(Seg::Key(k)) if k == "commit_phase_merkle_caps" => match (path.get(1), path.get(2)) {
+            (Some(Seg::Idx(i)), Some(Seg::Idx(j))) => Where::CommitCap(*i, *j),
+            _ => Where::Other,
+        },
+        _ => Where::Other,
+    }
+}
+
+/// Honest run plus the deviations that need nothing but the flow: (a) wrong opening value,
+/// (d) proof of work, (e) element and shape edits under fixed challenges.
+fn common_devs<C: GenericConfig<D, F = F>>(
+    fl: &Flow<C>,
+    truth: &Openings,
+    dev: &RawDev,
+    edits: &[RawEdit],
+    exhaustive: bool,
+    st: &mut Stats,
+) -> Result<(Proof<C>, FriChallenges<F, D>), String> {
+    let params = &fl.params;
+    check_params(params)?;
+    let pow_bits = params.config.proof_of_work_bits;
+    st.label(strat_label(params));
+    st.label(&format!("reductions:{}", fl.reductions()));
+    st.label(if params.hiding { "hiding:yes" } else { "hiding:no" });
+    st.label(&format!("queries:{}", if params.config.num_query_rounds <= 2 { "1-2" } else if params.config.num_query_rounds <= 6 { "3-6" } else { "7-12" }));
+    let nontrivial = fl.reductions() >= 1;
+
+    // ---- honest: accepted ----
+    let op = mk_openings(truth);
+    let proof = fl.prove_with(&op);
+    let ch = fl.challenges(&op, &proof);
+    let v = fl.verify(&op, &ch, &fl.caps, &proof);
+    if !v.accepted() {
+        return Err(format!("honest opening proof not accepted ({}) [{}]", v.text(), fl.describe()));
+    }
+    st.label("dev:honest");
+    if !pow_sufficient(ch.fri_pow_response.to_canonical_u64(), pow_bits) {
+        return Err(format!("honest proof accepted with an insufficient proof-of-work response {} (pow_bits={})", ch.fri_pow_response.to_canonical_u64(), pow_bits));
+    }
+
+    // ---- (a) one claimed opening differs from the reference value ----
+    {
+        let ii = frac(dev.sel[0], truth.len());
+        let bi = frac(dev.sel[1], truth[ii].len());
+        let ei = frac(dev.sel[2], truth[ii][bi].len());
+        let co = (dev.sel[3] & 1) as usize;
+        let mut claimed = truth.clone();
+        let old = claimed[ii][bi][ei][co];
+        let new = match dev.sel[3] >> 1 & 3 {
+            0 => (old + 1) % P,
+            1 => (old + P - 1) % P,
+            _ => {
+                if dev.vals[0] % P == old {
+                    (old + 1) % P
+                } else {
+                    dev.vals[0] % P
+                }
+            }
+        };
+        claimed[ii][bi][ei][co] = new;
+        let cop = mk_openings(&claimed);
+        // (a1) the prover is run on the transcript that contains the claimed value
+        let p1 = fl.prove_with(&cop);
+        let c1 = fl.challenges(&cop, &p1);
+        let v1 = fl.verify(&cop, &c1, &fl.caps, &p1);
+        st.evals(1);
+        st.label("dev:a_wrong_opening");
+        st.label(&format!("a_instance:{}", ii));
+        st.nontrivial(&(fl.shape_hash, "a1", ii, bi, ei, co));
+        if v1.accepted() {
+            return Err(format!(
+                "wrong opening ACCEPTED: instance {} batch {} element {} coord {}: claimed {} true {} [{}]",
+                ii, bi, ei, co, new, old, fl.describe()
+            ));
+        }
+        // (a2) honest proof, honest challenges held fixed, only the claimed value differs
+        let v2 = fl.verify(&cop, &ch, &fl.caps, &proof);
+        st.evals(1);
+        st.label("dev:a_wrong_opening_fixed_challenges");
+        st.nontrivial(&(fl.shape_hash, "a2", ii, bi, ei, co));
+        if v2.accepted() {
+            return Err(format!(
+                "wrong opening ACCEPTED under fixed challenges: instance {} batch {} element {} coord {}: claimed {} true {} [{}]",
+                ii, bi, ei, co, new, old, fl.describe()
+            ));
+        }
+    }
+
+    // ---- (d1) proof-of-work rule on the response, all other challenges fixed ----
+    {
+        let mut lzs: Vec<u32> = vec![0, pow_bits.saturating_sub(1), pow_bits, pow_bits + 1, 63, 64];
+        lzs.sort_unstable();
+        lzs.dedup();
+        for (k, lz) in lzs.into_iter().enumerate() {
+            let noise = dev.vals[1 + k % 4];
+            let mut r = if lz >= 64 { 0 } else { (1u64 << (63 - lz)) | (noise & ((1u64 << (63 - lz)) - 1)) };
+            if r >= P {
+                r = P - 1;
+            }
+            // residue r, optionally in its non-canonical representation r + p
+            let repr = if dev.sel[4] & 1 == 1 && r < (1u64 << 32) - 1 { r + P } else { r };
+            let mut c2 = clone_challenges(&ch);
+            c2.fri_pow_response = plonky2::field::goldilocks_field::GoldilocksField(repr);
+            let expect = pow_sufficient(r, pow_bits);
+            let v = fl.verify(&op, &c2, &fl.caps, &proof);
+            st.evals(1);
+            st.label(if expect { "dev:d_response_sufficient" } else { "dev:d_response_insufficient" });
+            if repr != r {
+                st.label("d_noncanonical_response");
+            }
+            st.nontrivial(&(fl.shape_hash, "d1", lz));
+            if v.accepted() != expect {
+                return Err(format!(
+                    "proof-of-work rule: response {} (repr {}, {} leading zeros) with pow_bits={} must be {} but verifier said: {} [{}]",
+                    r, repr, r.leading_zeros(), pow_bits, if expect { "sufficient" } else { "insufficient" }, v.text(), fl.describe()
+                ));
+            }
+        }
+    }
+    // ---- (d2) the prover is given a generated witness and continues honestly ----
+    for k in 0..2 {
+        let w = dev.vals[5 + k] % P;
+        let p2 = {
+            let _g = KnobGuard;
+            set_knobs(Knobs { pow_witness: Some(w), ..Knobs::default() });
+            fl.prove_with(&op)
+        };
+        if p2.pow_witness.to_canonical_u64() != w {
+            return Err("harness: pow_witness knob not effective".into());
+        }
+        let c2 = fl.challenges(&op, &p2);
+        let expect = pow_sufficient(c2.fri_pow_response.to_canonical_u64(), pow_bits);
+        let v = fl.verify(&op, &c2, &fl.caps, &p2);
+        st.evals(1);
+        st.label(if expect { "dev:d_grinding_sufficient" } else { "dev:d_grinding_insufficient" });
+        st.nontrivial(&(fl.shape_hash, "d2", w));
+        if v.accepted() != expect {
+            return Err(format!(
+                "grinding: witness {} gives response {} ({} leading zeros, pow_bits={}), expected {} but verifier said: {} [{}]",
+                w, c2.fri_pow_response.to_canonical_u64(), c2.fri_pow_response.to_canonical_u64().leading_zeros(), pow_bits,
+                if expect { "accept" } else { "reject" }, v.text(), fl.describe()
+            ));
+        }
+    }
+    // ---- (d3) witness replaced in the honest proof, challenges recomputed honestly ----
+    {
+        let mut p3 = proof.clone();
+        let w = dev.vals[7] % P;
+        if w != proof.pow_witness.to_canonical_u64() {
+            p3.pow_witness = fb(w);
+            let c3 = fl.challenges(&op, &p3);
+            let suff = pow_sufficient(c3.fri_pow_response.to_canonical_u64(), pow_bits);
+            let v = fl.verify(&op, &c3, &fl.caps, &p3);
+            st.evals(1);
+            st.label(if suff { "dev:d_replaced_witness_sufficient_recorded" } else { "dev:d_replaced_witness_insufficient" });
+            if !suff {
+                st.nontrivial(&(fl.shape_hash, "d3", w));
+                if v.accepted() {
+                    return Err(format!("replaced pow witness {} with insufficient response {} ACCEPTED [{}]", w, c3.fri_pow_response.to_canonical_u64(), fl.describe()));
+                }
+            } else {
+                st.label(&format!("d_replaced_sufficient_{}", v.short()));
+            }
+        }
+    }
+
+    // ---- (e) element edits and shape edits, honest challenges re-used ----
+    let sel = selected(params, &ch.fri_query_indices);
+    let mut tree = to_tree(&proof);
+    {
+        let p0: Proof<C> = from_tree(&tree).map_err(|e| format!("proof does not survive its serde tree: {}", e))?;
+        let v = fl.verify(&op, &ch, &fl.caps, &p0);
+        if !v.accepted() {
+            return Err(format!("proof rejected after serde tree round trip: {}", v.text()));
+        }
+    }
+    let leaves = numeric_leaves(&tree);
+    st.label(&format!("leaves_log2:{}", (leaves.len() as f64).log2() as usize));
+    let mut plan: Vec<(usize, ValueEdit)> = vec![];
+    if exhaustive && leaves.len() <= 5000 {
+        st.label("e_exhaustive");
+        for i in 0..leaves.len() {
+            let r = &edits[i % edits.len()];
+            plan.push((i, if (i + r.kind as usize) % 2 == 0 { ValueEdit::Plus1 } else { ValueEdit::Set(r.val) }));
+        }
+    } else {
+        for r in edits {
+            let i = frac32(r.pos, leaves.len());
+            let e = match r.kind % 4 {
+                0 => ValueEdit::Plus1,
+                1 => ValueEdit::Minus1,
+                2 => ValueEdit::Zero,
+                _ => ValueEdit::Set(r.val),
+            };
+            plan.push((i, e));
+        }
+    }
+    for (i, e) in plan {
+        let path = &leaves[i];
+        let class = class_of(path);
+        let modulus = leaf_modulus(path, fl.keccak);
+        let old = get(&tree, path).cloned().unwrap();
+        if !edit_value(&mut tree, path, e, modulus) {
+            continue;
+        }
+        let res: Result<Proof<C>, String> = from_tree(&tree);
+        *get_mut(&mut tree, path).unwrap() = old;
+        st.evals(1);
+        let p = match res {
+            Ok(p) => p,
+            Err(_) => {
+                st.label("e:not_constructible");
+                continue;
+            }
+        };
+        let v = fl.verify(&op, &ch, &fl.caps, &p);
+        match locate(path) {
+            Where::Pow => {
+                st.label(&format!("e_exempt:pow_witness_{}", v.short()));
+                continue;
+            }
+            Where::CommitCap(t, j) if !sel.commit.get(t).map(|s| s.contains(&j)).unwrap_or(false) => {
+                st.label(&format!("e_exempt:unselected_commit_cap_{}", v.short()));
+                continue;
+            }
+            _ => {}
+        }
+        st.label(&format!("e:{}", class));
+        if nontrivial {
+            st.nontrivial(&(fl.shape_hash, "e", i, e.name()));
+        }
+        match v {
+            Verdict::Accepted => {
+                return Err(format!(
+                    "edited FRI proof ACCEPTED under fixed challenges: {} at {} edit {:?} (query indices {:?}) [{}]",
+                    class, path_string(path), e, ch.fri_query_indices, fl.describe()
+                ));
+            }
+            Verdict::Rejected(_) => {}
+            Verdict::Panicked(_) => st.label("e:rejected_by_panic"),
+        }
+    }
+    // initial caps (not part of the FriProof, but part of what the verifier reads)
+    {
+        let mut ctree = to_tree(&fl.caps);
+        let cleaves = numeric_leaves(&ctree);
+        let modulus = if fl.keccak { 256 } else { P };
+        let n = if exhaustive { cleaves.len() } else { cleaves.len().min(6) };
+        for k in 0..n {
+            let i = if exhaustive { k } else { frac32(edits[k % edits.len()].pos.rotate_left(7), cleaves.len()) };
+            let path = &cleaves[i];
+            let old = get(&ctree, path).cloned().unwrap();
+            if !edit_value(&mut ctree, path, ValueEdit::Set(edits[k % edits.len()].val), modulus) {
+                continue;
+            }
+            let res: Result<Vec<Cap<C>>, String> = from_tree(&ctree);
+            *get_mut(&mut ctree, path).unwrap() = old;
+            let Ok(caps2) = res else { continue };
+            let v = fl.verify(&op, &ch, &caps2, &proof);
+            st.evals(1);
+            let j = match path.get(1) {
+                Some(Seg::Idx(j)) => *j,
+                _ => usize::MAX,
+            };
+            if !sel.initial.contains(&j) {
+                st.label(&format!("e_exempt:unselected_initial_cap_{}", v.short()));
+                continue;
+            }
+            st.label("e:initial_caps");
+            st.nontrivial(&(fl.shape_hash, "ecap", i));
+            if v.accepted() {
+                return Err(format!("edited initial cap ACCEPTED under fixed challenges: {} (query indices {:?}) [{}]", path_string(path), ch.fri_query_indices, fl.describe()));
+            }
+        }
+    }
+    // shape edits
+    {
+        let conts = containers(&tree);
+        let mut plan: Vec<(usize, ShapeEdit)> = vec![];
+        if exhaustive && conts.len() <= 2500 {
+            for i in 0..conts.len() {
+                for e in ShapeEdit::ALL {
+                    plan.push((i, e));
+                }
+            }
+        } else {
+            for r in edits.iter().take(edits.len() / 3 + 1) {
+                plan.push((frac32(r.pos.rotate_left(13), conts.len()), ShapeEdit::ALL[(r.kind as usize >> 2) % 4]));
+            }
+            // the top-level lists are always tried
+            for (i, (p, _, _)) in conts.iter().enumerate() {
+                if p.len() <= 2 {
+                    plan.push((i, ShapeEdit::DropLast));
+                    plan.push((i, ShapeEdit::DupLast));
+                }
+            }
+        }
+        for (i, e) in plan {
+            let (path, _, _) = &conts[i];
+            let class = class_of(path);
+            let old = get(&tree, path).cloned().unwrap();
+            if !edit_shape(&mut tree, path, e) {
+                continue;
+            }
+            let res: Result<Proof<C>, String> = from_tree(&tree);
+            *get_mut(&mut tree, path).unwrap() = old;
+            st.evals(1);
+            let p = match res {
+                Ok(p) => p,
+                Err(_) => {
+                    st.label("shape:not_constructible");
+                    continue;
+                }
+            };
+            let v = fl.verify(&op, &ch, &fl.caps, &p);
+            st.label(&format!("shape:{}", if class.is_empty() { "root" } else { class.as_str() }));
+            if nontrivial {
+                st.nontrivial(&(fl.shape_hash, "shape", i, e.name()));
+            }
+            match v {
+                Verdict::Accepted => {
+                    return Err(format!(
+                        "shape-edited FRI proof ACCEPTED under fixed challenges: {} at {} edit {} [{}]",
+                        class, path_string(path), e.name(), fl.describe()
+                    ));
+                }
+                Verdict::Rejected(_) => {}
+                Verdict::Panicked(_) => st.label("shape:rejected_by_panic"),
+            }
+        }
+    }
+    Ok((proof, ch))
+}
+
+// ------------------------------------------------------------------------------------------
+// Single-degree shapes
+// ------------------------------------------------------------------------------------------
+
+#[derive(Clone, Debug, Serialize, Deserialize, PartialEq, Eq, Hash)]
+pub struct Shape {
+    pub keccak: bool,
+    pub d: usize,
+    pub oracles: Vec<RawOracle>,
+    pub batches: Vec<RawBatch>,
+    pub fri: RawFri,
+}
+
+fn shape_strat(max_d: usize) -> BoxedStrategy<Shape> {
+    bx((1usize..=max_d).prop_flat_map(|d| {
+        let n = 1usize << d;
+        (
+            prop::bool::weighted(0.25),
+            prop::collection::vec((prop::collection::vec(poly_strat(n), 1..=6), any::<bool>()), 1..=4),
+            prop::collection::vec(raw_batch(), 1..=3),
+            raw_fri(),
+        )
+            .prop_map(move |(keccak, oracles, batches, fri)| Shape {
+                keccak,
+                d,
+                oracles: oracles.into_iter().map(|(polys, blinding)| RawOracle { polys, blinding }).collect(),
+                batches,
+                fri,
+            })
+    }))
+}
+
+/// Which polynomials a batch opens: a non-empty subset of `all`, in oracle order or reversed.
+fn batch_polys(b: &RawBatch, all: &[(usize, usize)]) -> Vec<FriPolynomialInfo> {
+    let mut v: Vec<(usize, usize)> = all.iter().enumerate().filter(|(k, _)| b.mask >> (k % 32) & 1 == 1).map(|(_, &x)| x).collect();
+    if v.is_empty() {
+        v.push(all[frac32(b.mask, all.len())]);
+    }
+    if b.rev {
+        v.reverse();
+    }
+    v.into_iter().map(|(oracle_index, polynomial_index)| FriPolynomialInfo { oracle_index, polynomial_index }).collect()
+}
+
+/// The point of one opening batch: generated, structured or drawn from the transcript; repaired
+/// so that it is outside the subgroup and the LDE coset.
+fn batch_point<C: GenericConfig<D, F = F>>(b: &RawBatch, ch: &mut Chal<C>, lde_bits: usize) -> ([u64; 2], bool) {
+    let p = match b.mode {
+        1 => raw(ch.get_extension_challenge::<D>()),
+        2 => [b.point[0], 0],
+        3 => {
+            let w = ref_pow(root_g(lde_bits), b.point[0] % (1u64 << lde_bits));
+            let w = if b.point[1] & 1 == 1 { w.mul(G(MULT_GEN)) } else { w };
+            [w.0, 0]
+        }
+        _ => b.point,
+    };
+    repair_point(p, lde_bits)
+}
+
+/// The combined polynomial `sum_i alpha^{k_i} (F_i(X) - F_i(z_i)) / (X - z_i)` exactly as the
+/// honest prover forms it (this is the deviating prover's own arithmetic, not an oracle).
+fn combined(batches: &[FriBatchInfo<F, D>], polys: &[Vec<PolynomialCoeffs<F>>], alpha: FE) -> PolynomialCoeffs<FE> {
+    let mut alpha = ReducingFactor::new(alpha);
+    let mut final_poly = PolynomialCoeffs::empty();
+    for FriBatchInfo { point, polynomials } in batches {
+        let polys_coeff = polynomials.iter().map(|p| &polys[p.oracle_index][p.polynomial_index]);
+        let composition_poly = alpha.reduce_polys_base::<F, D>(polys_coeff);
+        let mut quotient = composition_poly.divide_by_linear(*point);
+        quotient.coeffs.push(FE::ZERO);
+        alpha.shift_poly(&mut final_poly);
+        final_poly += quotient;
+    }
+    final_poly
+}
+
+#[derive(Clone, Debug, Serialize, Deserialize)]
+pub struct Case {
+    pub shape: Shape,
+    pub dev: RawDev,
+    pub edits: Vec<RawEdit>,
+    pub exhaustive: bool,
+}
+
+fn case_strat(max_d: usize, n_edits: usize, exhaustive: bool) -> BoxedStrategy<Case> {
+    bx((shape_strat(max_d), raw_dev(), prop::collection::vec(raw_edit(), n_edits..=n_edits)).prop_map(move |(shape, dev, edits)| Case { shape, dev, edits, exhaustive }))
+}
+
+struct SingleSetup<C: GenericConfig<D, F = F>> {
+    params: FriParams,
+    oracles: Vec<PolynomialBatch<F, C, D>>,
+    infos: Vec<FriOracleInfo>,
+    batch_lists: Vec<Vec<FriPolynomialInfo>>,
+}
+
+fn single_setup<C: GenericConfig<D, F = F>>(s: &Shape, polys: &[Vec<PolynomialCoeffs<F>>], st: &mut Stats) -> SingleSetup<C> {
+    let params = elab_fri(&s.fri, s.d);
+    let mut timing = TimingTree::default();
+    let oracles: Vec<PolynomialBatch<F, C, D>> = s
+        .oracles
+        .iter()
+        .zip(polys)
+        .map(|(o, p)| {
+            PolynomialBatch::from_coeffs(p.clone(), params.config.rate_bits, params.hiding && o.blinding, params.config.cap_height, &mut timing, None)
+        })
+        .collect();
+    let infos: Vec<FriOracleInfo> = s.oracles.iter().map(|o| FriOracleInfo { num_polys: o.polys.len(), blinding: o.blinding }).collect();
+    let all: Vec<(usize, usize)> = s.oracles.iter().enumerate().flat_map(|(oi, o)| (0..o.polys.len()).map(move |pi| (oi, pi))).collect();
+    let batch_lists: Vec<Vec<FriPolynomialInfo>> = s.batches.iter().map(|b| batch_polys(b, &all)).collect();
+    st.label(&format!("oracles:{}", s.oracles.len()));
+    st.label(&format!("opening_batches:{}", s.batches.len()));
+    if params.hiding && s.oracles.iter().any(|o| o.blinding) {
+        st.label("salted_oracle");
+    }
+    SingleSetup { params, oracles, infos, batch_lists }
+}
+
+fn to_coeffs(v: &[u64]) -> PolynomialCoeffs<F> {
+    PolynomialCoeffs::new(v.iter().map(|&x| fb(x)).collect())
+}
+
+fn single_case<C: GenericConfig<D, F = F>>(c: &Case, st: &mut Stats) -> Result<(), String> {
+    let s = &c.shape;
+    let dev = &c.dev;
+    let polys: Vec<Vec<PolynomialCoeffs<F>>> = s.oracles.iter().map(|o| o.polys.iter().map(|p| to_coeffs(p)).collect()).collect();
+    let su = single_setup::<C>(s, &polys, st);
+    let params = su.params.clone();
+    let lde_bits = params.lde_bits();
+    let caps: Vec<Cap<C>> = su.oracles.iter().map(|o| o.merkle_tree.cap.clone()).collect();
+    // transcript prefix: parameters, caps, then the opening points
+    let prefix = |points: &mut Vec<[u64; 2]>, repaired: &mut usize| -> Chal<C> {
+        let mut ch = Chal::<C>::new();
+        params.observe(&mut ch);
+        for cap in &caps {
+            ch.observe_cap(cap);
+        }
+        for b in &s.batches {
+            let (p, r) = batch_point::<C>(b, &mut ch, lde_bits);
+            points.push(p);
+            *repaired += r as usize;
+        }
+        ch
+    };
+    let mut points = vec![];
+    let mut repaired = 0;
+    let _ = prefix(&mut points, &mut repaired);
+    st.label_n("point_repaired", repaired as u64);
+    for b in &s.batches {
+        st.label(&format!("point_mode:{}", b.mode));
+    }
+    let instance = FriInstanceInfo {
+        oracles: su.infos.clone(),
+        batches: points.iter().zip(&su.batch_lists).map(|(&p, l)| FriBatchInfo { point: fe(p), polynomials: l.clone() }).collect(),
+    };
+    // reference openings
+    let truth: Openings = vec![points
+        .iter()
+        .zip(&su.batch_lists)
+        .map(|(&z, l)| l.iter().map(|pi| ref_open(&s.oracles[pi.oracle_index].polys[pi.polynomial_index], z)).collect())
+        .collect()];
+    let pad = pad_of(&s.fri, &params);
+    if pad.0.is_some() {
+        st.label("transcript_padding");
+    }
+    let oracle_refs: Vec<&PolynomialBatch<F, C, D>> = su.oracles.iter().collect();
+    let points_ref = &points;
+    let fl: Flow<C> = Flow {
+        single: true,
+        degree_bits: vec![s.d],
+        instances: vec![instance.clone()],
+        params: params.clone(),
+        caps: caps.clone(),
+        pad,
+        replay: Box::new(|| {
+            let mut pts = vec![];
+            let mut rep = 0;
+            let ch = prefix(&mut pts, &mut rep);
+            assert_eq!(&pts, points_ref, "harness: transcript replay drew other points");
+            ch
+        }),
+        prove: Box::new(|ch| {
+            let mut timing = TimingTree::default();
+            PolynomialBatch::<F, C, D>::prove_openings(&instance, &oracle_refs, ch, &params, pad.0, pad.1, &mut timing)
+        }),
+        keccak: s.keccak,
+        shape_hash: hash_of(s),
+    };
+    let (proof, _ch) = common_devs(&fl, &truth, dev, &c.edits, c.exhaustive, st)?;
+
+    // ---- (b) first layer / folded coefficients inconsistent (needs a reduction layer) ----
+    if fl.reductions() >= 1 {
+        let op = mk_openings(&truth);
+        let trees: Vec<&MerkleTree<F, Hs<C>>> = su.oracles.iter().map(|o| &o.merkle_tree).collect();
+        let start = || -> (Chal<C>, PolynomialCoeffs<FE>, PolynomialValues<FE>) {
+            let mut ch = fl.after_openings(&op);
+            let alpha = ch.get_extension_challenge::<D>();
+            let comb = combined(&instance.batches, &polys, alpha);
+            let lde_coeffs = comb.lde(params.config.rate_bits);
+            let lde_values = lde_coeffs.coset_fft(F::coset_shift().into());
+            (ch, lde_coeffs, lde_values)
+        };
+        let run = |ch: &mut Chal<C>, co: PolynomialCoeffs<FE>, va: PolynomialValues<FE>| -> (Proof<C>, FriChallenges<F, D>, Verdict) {
+            let mut timing = TimingTree::default();
+            let p = fri_proof::<F, C, D>(&trees, co, va, ch, &params, pad.0, pad.1, &mut timing);
+            let c = fl.challenges(&op, &p);
+            let v = fl.verify(&op, &c, &fl.caps, &p);
+            (p, c, v)
+        };
+        // (b0) the replica with honest inputs reproduces the prover's commitments
+        {
+            let (mut ch, co, va) = start();
+            let (p, _, v) = run(&mut ch, co, va);
+            if p.commit_phase_merkle_caps != proof.commit_phase_merkle_caps || p.final_poly != proof.final_poly {
+                return Err(format!("harness replica of prove_openings disagrees with the prover's commitments [{}]", fl.describe()));
+            }
+            if !v.accepted() {
+                return Err(format!("honest fri_proof over the combined polynomial not accepted: {} [{}]", v.text(), fl.describe()));
+            }
+        }
+        let delta = fe([nonzero(dev.vals[8]), dev.vals[9]]);
+        let n = 1usize << lde_bits;
+        let a0 = params.reduction_arity_bits[0];
+        // (b1) every committed first-layer value differs from the combined polynomial's evaluation
+        {
+            let (mut ch, co, mut va) = start();
+            for (i, v) in va.values.iter_mut().enumerate() {
+                *v += delta * FE::from_canonical_usize(1 + i % 3);
+            }
+            let (_, _, v) = run(&mut ch, co, va);
+            st.evals(1);
+            st.label("dev:b_first_layer_all_positions");
+            st.nontrivial(&(fl.shape_hash, "b1"));
+            if v.accepted() {
+                return Err(format!("first layer committed to other values (all positions) ACCEPTED [{}]", fl.describe()));
+            }
+        }
+        // (b2) a few positions differ: rejected iff some query's first-layer coset holds one
+        {
+            let (mut ch, co, mut va) = start();
+            let k = 1 + (dev.sel[5] as usize % 3);
+            let mut touched = BTreeSet::new();
+            for j in 0..k {
+                let i = frac(dev.sel[6 + j], n);
+                va.values[i] += delta;
+                if touched.contains(&i) {
+                    va.values[i] += delta; // keep the perturbation non-zero when the same index is drawn twice (char != 2, 3)
+                }
+                touched.insert(i);
+            }
+            let cosets: BTreeSet<usize> = touched.iter().map(|&i| bitrev(i, lde_bits) >> a0).collect();
+            let (_, c, v) = run(&mut ch, co, va);
+            let hit = c.fri_query_indices.iter().any(|&x| cosets.contains(&(x >> a0)));
+            st.evals(1);
+            st.label(if hit { "dev:b_first_layer_few_positions_queried" } else { "dev:b_first_layer_few_positions_unqueried_recorded" });
+            if hit {
+                st.nontrivial(&(fl.shape_hash, "b2", touched.iter().next().copied()));
+                if v.accepted() {
+                    return Err(format!(
+                        "first layer differs at natural indices {:?} (cosets {:?}), queried by {:?}, but ACCEPTED [{}]",
+                        touched, cosets, c.fri_query_indices, fl.describe()
+                    ));
+                }
+            } else {
+                st.label(&format!("b_unqueried_{}", v.short()));
+            }
+        }
+        // (b3) honest first layer, folded coefficients of another polynomial (one low monomial added)
+        {
+            let (mut ch, mut co, va) = start();
+            let k = frac(dev.sel[9], 1usize << s.d);
+            co.coeffs[k] += delta;
+            let (_, _, v) = run(&mut ch, co, va);
+            st.evals(1);
+            st.label("dev:b_folded_other_coefficients");
+            st.nontrivial(&(fl.shape_hash, "b3", k));
+            if v.accepted() {
+                return Err(format!("layers folded from other coefficients (monomial {} added) ACCEPTED [{}]", k, fl.describe()));
+            }
+        }
+    } else {
+        st.label("b_skipped_no_reduction");
+    }
+    st.sample(|| json!({"shape": fl.describe(), "points": points, "leaves": numeric_leaves(&to_tree(&proof)).len()}));
+    Ok(())
+}
+
+fn single_prop(c: &Case, st: &mut Stats) -> Result<(), String> {
+    with_config!(c.shape.keccak, single_case, c, st)
+}
+
+// ------------------------------------------------------------------------------------------
+// (c) functions of degree >= 2^d folded honestly
+// ------------------------------------------------------------------------------------------
+
+#[derive(Clone, Debug, Serialize, Deserialize)]
+pub struct HighCase {
+    pub shape: Shape,
+    /// general mode: (selector of an opened polynomial, selector of a high coefficient, value)
+    pub high: Vec<(u16, u16, u64)>,
+    /// crafted mode (single polynomial, single batch, base-field point): the committed function
+    /// is `P'(X) (X - z) + c` where the high part of `P'` vanishes on the preimages of a chosen
+    /// set of final-domain points
+    pub crafted: bool,
+    pub vanish_frac: u16,
+    pub vanish_picks: Vec<u16>,
+    pub scalar: u64,
+    pub constant: u64,
+}
+
+fn high_strat(max_d: usize) -> BoxedStrategy<HighCase> {
+    bx((
+        shape_strat(max_d),
+        prop::collection::vec((any::<u16>(), any::<u16>(), canonical()), 1..=4),
+        prop::bool::weighted(0.4),
+        any::<u16>(),
+        prop::collection::vec(any::<u16>(), 64..=64),
+        canonical(),
+        canonical(),
+    )
+        .prop_map(|(shape, high, crafted, vanish_frac, vanish_picks, scalar, constant)| HighCase { shape, high, crafted, vanish_frac, vanish_picks, scalar, constant }))
+}
+
+/// Textbook polynomial product over the reference field.
+fn ref_mul(a: &[G], b: &[G]) -> Vec<G> {
+    let mut out = vec![G(0); a.len() + b.len() - 1];
+    for (i, &x) in a.iter().enumerate() {
+        for (j, &y) in b.iter().enumerate() {
+            out[i + j] = out[i + j].add(x.mul(y));
+        }
+    }
+    out
+}
+
+/// A literal `PolynomialBatch` over arbitrary committed functions given by `2^(d+rate)`
+/// coefficients each (no low-degree extension step): what a prover that ignores the degree bound
+/// would commit to.
+fn literal_oracle<C: GenericConfig<D, F = F>>(polys: &[Vec<u64>], d: usize, rate_bits: usize, cap_height: usize, salted: bool) -> PolynomialBatch<F, C, D> {
+    let coeffs: Vec<PolynomialCoeffs<F>> = polys.iter().map(|p| to_coeffs(p)).collect();
+    let n = 1usize << (d + rate_bits);
+    let mut cols: Vec<Vec<F>> = coeffs.iter().map(|p| p.coset_fft(F::coset_shift()).values).collect();
+    if salted {
+        for c in 0..4u64 {
+            cols.push((0..n as u64).map(|i| fb(i * 0x9E37_79B9 + c * 77 + 5)).collect());
+        }
+    }
+    let mut leaves = transpose(&cols);
+    reverse_index_bits_in_place(&mut leaves);
+    PolynomialBatch { polynomials: coeffs, merkle_tree: MerkleTree::new(leaves, cap_height), degree_log: d, rate_bits, blinding: salted }
+}
+
+fn high_case<C: GenericConfig<D, F = F>>(c: &HighCase, st: &mut Stats) -> Result<(), String> {
+    let mut s = c.shape.clone();
+    let d = s.d;
+    if c.crafted {
+        // one polynomial, one batch, base-field point; sizes kept small (the construction is quadratic)
+        s.oracles.truncate(1);
+        s.oracles[0].polys.truncate(1);
+        s.batches.truncate(1);
+        s.batches[0].mode = 2;
+    }
+    let params = elab_fri(&s.fri, d);
+    check_params(&params)?;
+    let rate = params.config.rate_bits;
+    let lde_bits = d + rate;
+    let n = 1usize << lde_bits;
+    let low_n = 1usize << d;
+    let total: usize = params.reduction_arity_bits.iter().sum();
+    let final_len = 1usize << (d - total);
+    let final_domain_bits = lde_bits - total;
+    st.label(strat_label(&params));
+    st.label(&format!("reductions:{}", params.reduction_arity_bits.len()));
+    st.label(if params.hiding { "hiding:yes" } else { "hiding:no" });
+
+    // the committed functions: 2^(d+rate) coefficients each
+    let mut full: Vec<Vec<Vec<u64>>> = s.oracles.iter().map(|o| o.polys.iter().map(|p| { let mut v = p.clone(); v.resize(n, 0); v }).collect()).collect();
+    let all: Vec<(usize, usize)> = s.oracles.iter().enumerate().flat_map(|(oi, o)| (0..o.polys.len()).map(move |pi| (oi, pi))).collect();
+    let batch_lists: Vec<Vec<FriPolynomialInfo>> = s.batches.iter().map(|b| batch_polys(b, &all)).collect();
+    let opened: Vec<(usize, usize)> = batch_lists.iter().flatten().map(|p| (p.oracle_index, p.polynomial_index)).collect();
+
+    // sanity of the literal builder: on the low-degree functions it reproduces from_coeffs' cap
+    {
+        let o = &s.oracles[0];
+        let lit = literal_oracle::<C>(&full[0], d, rate, params.config.cap_height, false);
+        let mut timing = TimingTree::default();
+        let lib = PolynomialBatch::<F, C, D>::from_coeffs(o.polys.iter().map(|p| to_coeffs(p)).collect(), rate, false, params.config.cap_height, &mut timing, None);
+        if lit.merkle_tree.cap != lib.merkle_tree.cap {
+            return Err("harness: literal oracle builder disagrees with from_coeffs on low-degree input".into());
+        }
+    }
+
+    let mut vanish_idx: BTreeSet<usize> = BTreeSet::new();
+    let mut crafted_point = [0u64; 2];
+    if c.crafted {
+        // z: repaired base-field point (no transcript dependence)
+        let (z, _) = repair_point([s.batches[0].point[0], 0], lde_bits);
+        crafted_point = z;
+        // final-domain points y_t = (g w^bitrev(t))^(2^total) for a chosen index set; each index t of the final
+        // domain (bit-reversed order, as the verifier's x_index >> total) stands for a whole preimage coset
+        let nf = 1usize << final_domain_bits;
+        let max_m = (n - 2 - low_n) >> total; // deg(high part) = 2^d + m 2^total <= n - 2
+        let m = frac(c.vanish_frac, max_m + 1);
+        let start = frac(c.vanish_picks[0], nf);
+        let stride = (c.vanish_picks[1] as usize) | 1; // odd stride: a permutation of the final domain
+        for k in 0..m {
+            vanish_idx.insert((start + k * stride) % nf);
+        }
+        let g = G(MULT_GEN);
+        let w = root_g(lde_bits);
+        // V(Y) = prod_t (Y - y_t), y_t = (g w^rev(t))^(2^total): bitrev(t << total, lde_bits) = rev(t, final_domain_bits)
+        let mut v = vec![G(1)];
+        for &t in &vanish_idx {
+            let xq = g.mul(ref_pow(w, bitrev(t << total, lde_bits) as u64));
+            let y = sq_n(xq, total);
+            v = ref_mul(&v, &[y.neg(), G(1)]);
+        }
+        // P' = low + scalar * X^(2^d) * V(X^(2^total))
+        let mut pp = vec![G(0); n];
+        for (k, &cf) in s.oracles[0].polys[0].iter().enumerate() {
+            pp[k] = G(cf % P);
+        }
+        let sc = G(nonzero(c.scalar));
+        for (k, &vk) in v.iter().enumerate() {
+            pp[low_n + (k << total)] = sc.mul(vk);
+        }
+        // f = P' (X - z) + c  (degree <= n - 1 because deg P' <= n - 2)
+        let f = ref_mul(&pp[..n - 1], &[G(z[0]).neg(), G(1)]);
+        let mut f: Vec<u64> = f.iter().map(|x| x.0).collect();
+        f[0] = G(f[0]).add(G(c.constant % P)).0;
+        f.resize(n, 0);
+        full[0][0] = f;
+        st.label("c_mode:crafted");
+        st.label(&format!("c_vanish_cosets:{}", if vanish_idx.is_empty() { "0" } else if vanish_idx.len() <= 4 { "1-4" } else { "5+" }));
+    } else {
+        for &(ps, ks, val) in &c.high {
+            let (oi, pi) = opened[frac(ps, opened.len())];
+            let k = low_n + frac(ks, n - low_n);
+            full[oi][pi][k] = nonzero(val);
+        }
+        st.label("c_mode:generated_high_coefficients");
+    }
+
+    let salted: Vec<bool> = s.oracles.iter().map(|o| params.hiding && o.blinding).collect();
+    let oracles: Vec<PolynomialBatch<F, C, D>> = full.iter().zip(&salted).map(|(p, &sa)| literal_oracle::<C>(p, d, rate, params.config.cap_height, sa)).collect();
+    let caps: Vec<Cap<C>> = oracles.iter().map(|o| o.merkle_tree.cap.clone()).collect();
+    let infos: Vec<FriOracleInfo> = s.oracles.iter().map(|o| FriOracleInfo { num_polys: o.polys.len(), blinding: o.blinding }).collect();
+    let prefix = |points: &mut Vec<[u64; 2]>| -> Chal<C> {
+        let mut ch = Chal::<C>::new();
+        params.observe(&mut ch);
+        for cap in &caps {
+            ch.observe_cap(cap);
+        }
+        for b in &s.batches {
+            let (p, _) = if c.crafted { (crafted_point, false) } else { batch_point::<C>(b, &mut ch, lde_bits) };
+            points.push(p);
+        }
+        ch
+    };
+    let mut points = vec![];
+    let ch0 = prefix(&mut points);
+    let instance = FriInstanceInfo {
+        oracles: infos,
+        batches: points.iter().zip(&batch_lists).map(|(&p, l)| FriBatchInfo { point: fe(p), polynomials: l.clone() }).collect(),
+    };
+    // the claimed openings are the true evaluations of the committed (high-degree) functions
+    let truth: Openings = vec![points.iter().zip(&batch_lists).map(|(&z, l)| l.iter().map(|pi| ref_open(&full[pi.oracle_index][pi.polynomial_index], z)).collect()).collect()];
+    let op = mk_openings(&truth);
+    let mut ch = ch0;
+    ch.observe_openings(&op[0]);
+    let alpha = ch.get_extension_challenge::<D>();
+    let poly_coeffs: Vec<Vec<PolynomialCoeffs<F>>> = oracles.iter().map(|o| o.polynomials.clone()).collect();
+    let comb = combined(&instance.batches, &poly_coeffs, alpha);
+    if comb.len() != n {
+        return Err(format!("harness: combined polynomial has {} coefficients, expected {}", comb.len(), n));
+    }
+    let values = comb.coset_fft(F::coset_shift().into());
+    let trees: Vec<&MerkleTree<F, Hs<C>>> = oracles.iter().map(|o| &o.merkle_tree).collect();
+    let mut timing = TimingTree::default();
+    let comb_ref: Vec<G2> = comb.coeffs.iter().map(|&x| g2(x)).collect();
+    let proof = fri_proof::<F, C, D>(&trees, comb, values, &mut ch, &params, None, None, &mut timing);
+    // verifier side: fresh challenger
+    let mut pts2 = vec![];
+    let mut vch = prefix(&mut pts2);
+    if pts2 != points {
+        return Err("harness: transcript replay drew other points".into());
+    }
+    vch.observe_openings(&op[0]);
+    let chal = vch.fri_challenges::<C, D>(&proof.commit_phase_merkle_caps, &proof.final_poly, proof.pow_witness, d, &params.config, None, None);
+    let verdict = match catch(|| verify_fri_proof::<F, C, D>(&instance, &op[0], &chal, &caps, &proof, &params)) {
+        Ok(Ok(())) => Verdict::Accepted,
+        Ok(Err(e)) => Verdict::Rejected(format!("{:#}", e)),
+        Err(p) => Verdict::Panicked(p),
+    };
+
+    // ---- exact prediction: reference fold of the combined polynomial, truncated part D, D(y_q) ----
+    let mut cur = comb_ref;
+    for (&a, &beta) in params.reduction_arity_bits.iter().zip(&chal.fri_betas) {
+        let ar = 1usize << a;
+        let b = g2(beta);
+        cur = cur
+            .chunks(ar)
+            .map(|ch| {
+                let mut acc = G2::zero();
+                let mut bp = G2::one();
+                for &cf in ch {
+                    acc = acc.add(cf.mul(bp));
+                    bp = bp.mul(b);
+                }
+                acc
+            })
+            .collect();
+    }
+    let mut dropped = cur.clone();
+    for x in dropped.iter_mut().take(final_len) {
+        *x = G2::zero();
+    }
+    let high_nonzero = dropped.iter().any(|x| !x.is_zero());
+    let g = G(MULT_GEN);
+    let w = root_g(lde_bits);
+    let mut detecting = 0usize;
+    let mut in_vanish = 0usize;
+    for &x_index in &chal.fri_query_indices {
+        let x = g.mul(ref_pow(w, bitrev(x_index, lde_bits) as u64));
+        let y = sq_n(x, total);
+        let dv = horner(&dropped, G2([y, G(0)]));
+        if !dv.is_zero() {
+            detecting += 1;
+        }
+        if vanish_idx.contains(&(x_index >> total)) {
+            in_vanish += 1;
+            if !dv.is_zero() {
+                return Err(format!("harness: crafted high part does not vanish at final-domain index {}", x_index >> total));
+            }
+        }
+    }
+    st.evals(1);
+    let nontrivial = !params.reduction_arity_bits.is_empty();
+    if !high_nonzero {
+        st.label("c_high_part_folded_to_zero_recorded");
+        return Ok(());
+    }
+    if detecting > 0 {
+        st.label("dev:c_high_degree_detected_by_some_query");
+        if nontrivial {
+            st.nontrivial(&(hash_of(&c.shape), "c", c.crafted, vanish_idx.len(), detecting));
+        } else {
+            st.label("c_no_reduction_layer");
+        }
+        if verdict.accepted() {
+            return Err(format!(
+                "function of degree >= 2^{} ACCEPTED although {} of {} queries hit a point where the truncated part is non-zero (crafted={}, query indices {:?}, arities {:?}, rate {}, cap {}, hiding {}, keccak {})",
+                d, detecting, chal.fri_query_indices.len(), c.crafted, chal.fri_query_indices, params.reduction_arity_bits, rate, params.config.cap_height, params.hiding, s.keccak
+            ));
+        }
+    } else {
+        // every query landed where the truncated part vanishes: FRI's soundness error, outcome recorded
+        st.label(&format!("c_all_queries_in_vanishing_set_{}", verdict.short()));
+        let _ = in_vanish;
+    }
+    st.sample(|| json!({"d": d, "rate": rate, "arities": params.reduction_arity_bits, "crafted": c.crafted, "vanishing_cosets": vanish_idx.len(), "queries": chal.fri_query_indices.len(), "detecting": detecting}));
+    Ok(())
+}
+
+fn high_prop(c: &HighCase, st: &mut Stats) -> Result<(), String> {
+    with_config!(c.shape.keccak, high_case, c, st)
+}
+
+// ------------------------------------------------------------------------------------------
+// Batched variant (polynomials of different degrees)
+// ------------------------------------------------------------------------------------------
+
+#[derive(Clone, Debug, Serialize, Deserialize, PartialEq, Eq, Hash)]
+pub struct BatchShape {
+    pub keccak: bool,
+    /// distinct degree bits, descending
+    pub degrees: Vec<usize>,
+    /// oracle -> degree group -> polynomials (coefficients, 2^degree each)
+    pub oracles: Vec<Vec<Vec<Vec<u64>>>>,
+    /// instance (degree group) -> opening batches
+    pub batches: Vec<Vec<RawBatch>>,
+    pub rate_bits: usize,
+    pub cap_height: usize,
+    pub pow_bits: u32,
+    pub queries: usize,
+    /// how each gap between consecutive degrees is split into arities, then trailing reductions
+    pub splits: Vec<u8>,
+    pub trailing: Vec<u8>,
+    pub constant_arity: bool,
+    pub final_bits: u8,
+}
+
+#[derive(Clone, Debug, Serialize, Deserialize)]
+pub struct BatchCase {
+    pub shape: BatchShape,
+    pub dev: RawDev,
+    pub edits: Vec<RawEdit>,
+    pub exhaustive: bool,
+}
+
+fn batch_strat(n_edits: usize, exhaustive: bool) -> BoxedStrategy<BatchCase> {
+    let degs = prop::collection::btree_set(1usize..=7, 1..=3).prop_map(|s| s.into_iter().rev().collect::<Vec<usize>>());
+    let shape = degs.prop_flat_map(|degrees| {
+        let groups: Vec<BoxedStrategy<Vec<Vec<u64>>>> = degrees.iter().map(|&d| bx(prop::collection::vec(poly_strat(1usize << d), 1..=2))).collect();
+        let k = degrees.len();
+        (
+            (Just(degrees), prop::bool::weighted(0.25), prop::collection::vec(groups, 1..=2)),
+            prop::collection::vec(prop::collection::vec(raw_batch(), 1..=2), k..=k),
+            (1usize..=3, 0usize..=3, 0u32..=8, 1usize..=10),
+            (prop::collection::vec(any::<u8>(), 3..=3), prop::collection::vec(1u8..=3, 0..=3), prop::bool::weighted(0.25), 0u8..=7),
+        )
+            .prop_map(|((degrees, keccak, oracles), batches, (rate_bits, cap_height, pow_bits, queries), (splits, trailing, constant_arity, final_bits))| BatchShape {
+                keccak,
+                degrees,
+                oracles,
+                batches,
+                rate_bits,
+                cap_height,
+                pow_bits,
+                queries,
+                splits,
+                trailing,
+                constant_arity,
+                final_bits,
+            })
+    });
+    bx((shape, raw_dev(), prop::collection::vec(raw_edit(), n_edits..=n_edits)).prop_map(move |(shape, dev, edits)| BatchCase { shape, dev, edits, exhaustive }))
+}
+
+/// Parameters for the batched variant. Preconditions read from `batch_fri_proof` and
+/// `BatchMerkleTree::new`: strictly decreasing degrees, each smaller degree reached exactly by
+/// the cumulative arity, cap height at most the smallest LDE height, no salts.
+fn elab_batch_params(s: &BatchShape) -> FriParams {
+    let rate = s.rate_bits;
+    let d0 = s.degrees[0];
+    let dl = *s.degrees.last().unwrap();
+    let cap = s.cap_height.min(dl + rate);
+    let strat = if s.constant_arity {
+        FriReductionStrategy::ConstantArityBits(1, (s.final_bits as usize).min(dl))
+    } else {
+        let mut list = vec![];
+        for (k, w) in s.degrees.windows(2).enumerate() {
+            let gap = w[0] - w[1];
+            let first = 1 + (s.splits[k % s.splits.len()] as usize) % gap.min(4);
+            let mut rest = gap - first;
+            list.push(first);
+            while rest > 0 {
+                let a = rest.min(3);
+                list.push(a);
+                rest -= a;
+            }
+        }
+        let budget = dl.min(dl + rate - cap);
+        let mut sum = 0;
+        for &a in &s.trailing {
+            let a = (a as usize).min(budget - sum);
+            if a == 0 {
+                break;
+            }
+            list.push(a);
+            sum += a;
+        }
+        FriReductionStrategy::Fixed(list)
+    };
+    FriConfig { rate_bits: rate, cap_height: cap, proof_of_work_bits: s.pow_bits, reduction_strategy: strat, num_query_rounds: s.queries }.fri_params(d0, false)
+}
+
+fn batch_case<C: GenericConfig<D, F = F>>(c: &BatchCase, st: &mut Stats) -> Result<(), String> {
+    let s = &c.shape;
+    let params = elab_batch_params(s);
+    let k = s.degrees.len();
+    let lde_bits = params.lde_bits();
+    st.label(&format!("batch_degrees:{}", k));
+    // every smaller degree must be met by the cumulative arity (harness precondition check)
+    {
+        let mut cur = s.degrees[0];
+        let mut idx = 1;
+        for a in &params.reduction_arity_bits {
+            cur -= a;
+            if idx < k && cur == s.degrees[idx] {
+                idx += 1;
+            }
+        }
+        if idx != k {
+            return Err(format!("harness: batch arities {:?} do not meet degrees {:?}", params.reduction_arity_bits, s.degrees));
+        }
+    }
+    // flat polynomial lists per oracle, sorted by degree (descending), and their raw coefficients
+    let flat: Vec<Vec<&Vec<u64>>> = s.oracles.iter().map(|o| o.iter().flatten().collect()).collect();
+    let mut timing = TimingTree::default();
+    let oracles: Vec<BatchFriOracle<F, C, D>> = flat
+        .iter()
+        .map(|polys| {
+            let coeffs: Vec<PolynomialCoeffs<F>> = polys.iter().map(|p| to_coeffs(p)).collect();
+            let tables = vec![None; coeffs.len()];
+            BatchFriOracle::from_coeffs(coeffs, params.config.rate_bits, false, params.config.cap_height, &mut timing, &tables)
+        })
+        .collect();
+    let caps: Vec<Cap<C>> = oracles.iter().map(|o| o.batch_merkle_tree.cap.clone()).collect();
+    // instance i: the polynomials of degree group i in every oracle
+    let offsets: Vec<Vec<usize>> = s
+        .oracles
+        .iter()
+        .map(|o| {
+            let mut acc = 0;
+            o.iter()
+                .map(|g| {
+                    let a = acc;
+                    acc += g.len();
+                    a
+                })
+                .collect()
+        })
+        .collect();
+    let lists: Vec<Vec<Vec<FriPolynomialInfo>>> = (0..k)
+        .map(|i| {
+            let all: Vec<(usize, usize)> = s.oracles.iter().enumerate().flat_map(|(oi, o)| { let off = offsets[oi][i]; (0..o[i].len()).map(move |pi| (oi, off + pi)) }).collect();
+            s.batches[i].iter().map(|b| batch_polys(b, &all)).collect()
+        })
+        .collect();
+    let prefix = |points: &mut Vec<Vec<[u64; 2]>>| -> Chal<C> {
+        let mut ch = Chal::<C>::new();
+        params.observe(&mut ch);
+        for cap in &caps {
+            ch.observe_cap(cap);
+        }
+        for i in 0..k {
+            let mut v = vec![];
+            for b in &s.batches[i] {
+                v.push(batch_point::<C>(b, &mut ch, lde_bits).0);
+            }
+            points.push(v);
+        }
+        ch
+    };
+    let mut points = vec![];
+    let _ = prefix(&mut points);
+    let instances: Vec<FriInstanceInfo<F, D>> = (0..k)
+        .map(|i| FriInstanceInfo {
+            oracles: s.oracles.iter().map(|o| FriOracleInfo { num_polys: o[i].len(), blinding: false }).collect(),
+            batches: points[i].iter().zip(&lists[i]).map(|(&p, l)| FriBatchInfo { point: fe(p), polynomials: l.clone() }).collect(),
+        })
+        .collect();
+    let truth: Openings = (0..k)
+        .map(|i| points[i].iter().zip(&lists[i]).map(|(&z, l)| l.iter().map(|pi| ref_open(flat[pi.oracle_index][pi.polynomial_index], z)).collect()).collect())
+        .collect();
+    let oracle_refs: Vec<&BatchFriOracle<F, C, D>> = oracles.iter().collect();
+    let points_ref = &points;
+    let fl: Flow<C> = Flow {
+        single: false,
+        degree_bits: s.degrees.clone(),
+        instances: instances.clone(),
+        params: params.clone(),
+        caps: caps.clone(),
+        pad: (None, None),
+        replay: Box::new(|| {
+            let mut pts = vec![];
+            let ch = prefix(&mut pts);
+            assert_eq!(&pts, points_ref, "harness: transcript replay drew other points");
+            ch
+        }),
+        prove: Box::new(|ch| {
+            let mut timing = TimingTree::default();
+            BatchFriOracle::<F, C, D>::prove_openings(&s.degrees, &instances, &oracle_refs, ch, &params, &mut timing)
+        }),
+        keccak: s.keccak,
+        shape_hash: hash_of(s),
+    };
+    let (proof, _) = common_devs(&fl, &truth, &c.dev, &c.edits, c.exhaustive, st)?;
+    st.sample(|| json!({"shape": fl.describe(), "leaves": numeric_leaves(&to_tree(&proof)).len()}));
+    Ok(())
+}
+
+fn batch_prop(c: &BatchCase, st: &mut Stats) -> Result<(), String> {
+    with_config!(c.shape.keccak, batch_case, c, st)
+}
+
+// ------------------------------------------------------------------------------------------
+// Entry point
+// ------------------------------------------------------------------------------------------
 
 pub fn run(ctx: &mut Ctx) {
-    let _ = ctx;
+    ctx.level = "fault_enumeration";
+    ctx.rule = "FRI-level case = 1-4 oracles x 1-6 polynomials of degree < 2^d (d in 1..=7, boundary-biased canonical coefficients, \
+                per-oracle blinding) x 1-3 opening batches (extension / base-field / transcript-drawn points repaired to lie outside the \
+                two-adic subgroup and the LDE coset; each opens a non-empty subset) x FriConfig (rate 1-3, cap 0-3, Fixed | ConstantArityBits | \
+                MinSize repaired to the library's preconditions, pow 0-8, 1-12 queries, hiding, optional transcript padding) x Poseidon|Keccak; \
+                the batched variant has 1-3 distinct degrees in 1-2 BatchFriOracles. Claimed openings come from the harness' own Horner rule over u128 arithmetic. \
+                Per case: honest run (must be accepted) and deviations (a) one opening value changed (transcript-consistent and with fixed challenges), \
+                (b) first layer committed to other values at all / a few positions (the latter asserted iff a query's coset holds a changed position) and \
+                layers folded from other coefficients, (c) committed functions of degree >= 2^d with true openings, folded honestly (generated high coefficients, \
+                or a high part crafted to vanish on whole preimage cosets: asserted iff the harness' reference fold says some query sees a non-zero truncated part), \
+                (d) proof of work: response boundary sweep under fixed challenges, generated witnesses through the prover knob, replaced witness, \
+                (e) value edit of elements of the FriProof serde tree and of the initial caps and shape edits of its lists, honest FriChallenges re-used. \
+                Non-trivial: >= 1 reduction layer for (b),(c),(e); distinct = (shape, deviation, position/edit)."
+        .into();
+    ctx.assumptions.push("(e): pow_witness and cap entries that no query index selects are unread under fixed challenges (bound through the transcript, C04); outcome recorded only".into());
+    ctx.assumptions.push("(c): an adversarially chosen function of degree < 2^(d+rate) passes one query with probability up to 1 - 2^-rate - 2^-(d+rate-total) (its truncated part can vanish on all but 2^(d-total)+1 final-domain points); rejection is therefore asserted only when the harness' reference fold shows a query that sees a non-zero truncated part (then the rejection is deterministic), otherwise the outcome is recorded".into());
+    ctx.assumptions.push("(b) few positions: asserted only when a query's first-layer coset contains a changed position (computed from the challenge indices)".into());
+    ctx.assumptions.push("batched variant: no salts (batch_fri_verify_initial_proof does not skip salt columns), each smaller degree is met exactly by the cumulative arity, cap height <= smallest LDE height".into());
+    ctx.assumptions.push("Merkle collisions and the events alpha = 0 / beta a root of a fixed low-degree polynomial (probability < 2^-100) are ignored".into());
+    ctx.assumptions.push("salts and the honest prover's grinding result come from the library's own randomness / parallel search and are not replayed bit-exactly".into());
+    ctx.shrink_iters = 60;
+    let thorough = ctx.tier == Tier::Thorough;
+    let (n_single, n_edits) = ctx.tier.pick((320, 60), (6000, 120));
+    let n_high = ctx.tier.pick(400, 10_000);
+    let n_batch = ctx.tier.pick(200, 3000);
+    ctx.run_sub("single_degree", n_single, 16, move || case_strat(7, n_edits, thorough), single_prop);
+    ctx.run_sub("high_degree", n_high, 16, || high_strat(6), high_prop);
+    ctx.run_sub("batched", n_batch, 16, move || batch_strat(n_edits, thorough), batch_prop);
 }
